@@ -685,10 +685,11 @@ class Gen:
         # variadic MIR function: va_start / va_arg of i64, d and ld arguments / va_end
         self.chunk('hva', 'func')
         self.emit('func i64, i64:n, i64:tags, ...', 'hva')
-        self.emit('local i64:va, i64:s, i64:i, i64:p, i64:t, d:x, ld:l')
+        self.emit('local i64:va, i64:s, i64:i, i64:p, i64:q, i64:t, d:x, ld:l')
         self.emit('alloca va, 32')
         self.emit('va_start va')
         self.emit('mov s, 0')
+        self.emit('mov q, 0')
         self.emit('mov i, 0')
         self.lines.append('hva_lp:')
         self.emit('bge hva_fin, i, n')
@@ -698,6 +699,13 @@ class Gen:
         self.emit('beq hva_ld, t, 3')
         self.emit('va_arg p, va, i64:0')
         self.emit('add s, s, i64:(p)')
+        # the pointer of the PREVIOUS execution of this va_arg insn is still valid and still points to the previous
+        # argument (every execution yields its own object: fix C20-13)
+        self.emit('bf hva_nq, q')
+        self.emit('mul t, i64:(q), 7')
+        self.emit('add s, s, t')
+        self.lines.append('hva_nq:')
+        self.emit('mov q, p')
         self.emit('jmp hva_nx')
         self.lines.append('hva_d:')
         self.emit('va_arg p, va, d:0')
